@@ -54,6 +54,7 @@ structure DState where
   c05Before : Live := []
   c05After : Live := []
   c05Links : List Link := []
+  c05LinksB : List Link := []
   actBefore : List Act := []
   actAfter : List Act := []
   segLinks : List Link := []      -- live links at the last boundary (implementation, by SQL)
@@ -211,29 +212,36 @@ def tableOf (v : VTable TKey) (tid : Nat) : VTable Key :=
   (v.filter (fun r => r.key.1 = tid)).map (fun r =>
     { key := r.key.2, tx := r.tx, endTx := r.endTx, op := r.op, vals := r.vals, mods := r.mods })
 
-/-- verdict of one relationship named in the revert call: `(holds, touched keys)` -/
-def c05Rel (st_v : VTable TKey) (arows : List ARow) (before after : Live) (links : List Link)
-    (v : VRow TKey) (spec : String) : Option (Bool × List TKey) :=
+/-- same elements (association links have no order) -/
+def sameLinks (a b : List Link) : Bool := a.all (fun x => b.contains x) && b.all (fun x => a.contains x)
+
+/-- verdict of the relationship clause on the implementation's rows, the keys the clause may touch, and
+whether the MODEL function (`revertM2M`) run on the rows before the revert yields the implementation's links -/
+def c05Rel (st_v : VTable TKey) (arows : List ARow) (before after : Live) (links linksB : List Link)
+    (v : VRow TKey) (spec : String) : Option (Bool × List TKey × Bool) :=
   match spec.splitOn ":" with
   | ["o2m", ct, fk] => do
     let ct ← parseNat ct
     let fk ← parseNat fk
     let shown := oneToMany (tableOf st_v ct) fk v.key.2 v.tx
     pure (decide (C05.O2MHolds after ct fk v.key.2 shown),
-          liveChildren before ct fk v.key.2 ++ shown.map (fun r => (ct, r.key)))
+          liveChildren before ct fk v.key.2 ++ shown.map (fun r => (ct, r.key)), true)
   | ["m2m", rt, atb, lf] => do
     let rt ← parseNat rt
     let atb ← parseNat atb
     let lf ← parseBool lf
     let shown := manyToMany (tableOf st_v rt) arows atb lf v.key.2 v.tx
-    pure (decide (C05.M2MHolds after links rt atb lf v.key.2 shown), shown.map (fun r => (rt, r.key)))
+    let m := revertM2M before linksB rt atb lf v.key.2 shown
+    pure (decide (C05.M2MHolds after links rt atb lf v.key.2 shown), shown.map (fun r => (rt, r.key)),
+          sameLinks m.2 links && shown.all (fun r => liveGet m.1 (rt, r.key) == liveGet after (rt, r.key)))
   | ["m2o", pt, fk] => do
     let pt ← parseNat pt
     let fk ← parseNat fk
     let r : VRow Key := { key := v.key.2, tx := v.tx, endTx := v.endTx, op := v.op, vals := v.vals, mods := v.mods }
     match manyToOne (tableOf st_v pt) (fkOf fk r) v.tx with
-    | some pv => pure (decide (liveGet after (pt, pv.key) = some pv.vals), [(pt, pv.key)])
-    | none => pure (true, [])
+    | some pv => pure (decide (liveGet after (pt, pv.key) = some pv.vals), [(pt, pv.key)],
+                       liveGet (revertM2O before pt (some pv)) (pt, pv.key) == liveGet after (pt, pv.key))
+    | none => pure (true, [], true)
   | _ => none
 
 
@@ -512,6 +520,10 @@ def handle (st : DState) (toks : List String) : DState × Option String :=
     match parseNat tbl, parseKey link with
     | some tbl, some link => ({ st with c05Links := st.c05Links ++ [(tbl, link)] }, none)
     | _, _ => (st, bad)
+  | ["c05lb", tbl, link] =>
+    match parseNat tbl, parseKey link with
+    | some tbl, some link => ({ st with c05LinksB := st.c05LinksB ++ [(tbl, link)] }, none)
+    | _, _ => (st, bad)
   | ["q05", tid, pk, tx, rels] =>
     match parseNat tid, parseKey pk, parseNat tx with
     | some tid, some pk, some tx =>
@@ -519,13 +531,15 @@ def handle (st : DState) (toks : List String) : DState × Option String :=
       | some v =>
         let target := decideB (C05.TargetHolds st.c05After v)
         let specs := if rels == "-" then [] else rels.splitOn ";"
-        let rs := specs.map (c05Rel st.c05V st.arows st.c05Before st.c05After st.c05Links v)
+        let rs := specs.map (c05Rel st.c05V st.arows st.c05Before st.c05After st.c05Links st.c05LinksB v)
         if rs.any (fun r => r.isNone) then (st, bad) else
         let rs' := rs.filterMap id
         let relBits := String.join (rs'.map (fun r => showBool r.1))
-        let touched := (v.key :: rs'.flatMap (fun r => r.2))
+        let touched := (v.key :: rs'.flatMap (fun r => r.2.1))
+        let modelBits := String.join (rs'.map (fun r => showBool r.2.2))
         let frame := if v.op = .delete then "-" else decideB (C05.FrameHolds st.c05Before st.c05After touched)
-        ({ st with c05Before := [], c05After := [], c05Links := [] }, some s!"{target} {if relBits.isEmpty then "-" else relBits} {frame}")
+        ({ st with c05Before := [], c05After := [], c05Links := [], c05LinksB := [] },
+         some s!"{target} {if relBits.isEmpty then "-" else relBits} {frame} {if modelBits.isEmpty then "-" else modelBits}")
       | none => (st, bad)
     | _, _, _ => (st, bad)
   | ["tprog", nk, nv, mods, validity] =>
